@@ -41,36 +41,39 @@ theorem refuse_changes_nothing (cfg : Cfg) (flt : Faults) (scan : List SEntry) (
   · simp
   · rename_i hg; simp [hg] at h
 
-/-- Whenever the planned deletions exceed the configured share, the run is refused — before any
-    task has run. -/
+/-- Whenever the planned deletions exceed the configured share of the destination's entries (sy's
+    own metadata files are not entries: they are neither counted nor ever deleted), the run is
+    refused — before any task has run. -/
 theorem exceeding_share_refused (cfg : Cfg) (flt : Faults) (scan : List SEntry) (dst : Map DNode) (n : Nat)
-    (hd : cfg.delete = true) (hf : cfg.force = false) (hc : 0 < dst.length)
-    (hx : ((plan cfg scan dst).filter (·.act == .delete)).length * 100 > cfg.threshold * dst.length) :
+    (hd : cfg.delete = true) (hf : cfg.force = false) (hc : 0 < destCount dst)
+    (hx : ((plan cfg scan dst).filter (·.act == .delete)).length * 100 > cfg.threshold * destCount dst) :
     (runF cfg flt scan dst n).refused = true ∧ (runF cfg flt scan dst n).dst = dst := by
   have hg := guard_refuses cfg _ _ hd hf hc hx
   unfold runF
   simp only [hg, ↓reduceIte, and_self]
 
-/-- An empty (unmounted, mistaken) source cannot wipe a destination: every destination entry
-    would be deleted, which exceeds any threshold below 100 %. -/
-theorem empty_source_cannot_wipe (cfg : Cfg) (flt : Faults) (dst : Map DNode) (n : Nat)
-    (hd : cfg.delete = true) (hf : cfg.force = false) (hthr : cfg.threshold < 100)
-    (hne : 0 < dst.length) (hown : ∀ p ∈ dst.keys, ownMetadata.contains p = false) :
-    (runF cfg flt [] dst n).refused = true ∧ (runF cfg flt [] dst n).dst = dst := by
-  apply exceeding_share_refused cfg flt [] dst n hd hf hne
-  have hplan : plan cfg [] dst = dst.keys.map (fun p => ⟨.delete, p, .nothing⟩) := by
+/-- with an empty source every destination entry that is not sy's own metadata is planned for
+    deletion -/
+theorem empty_source_deletes_all (cfg : Cfg) (dst : Map DNode) (hd : cfg.delete = true) :
+    ((plan cfg [] dst).filter (·.act == .delete)).length = destCount dst := by
+  have hplan : plan cfg [] dst =
+      (dst.keys.filter fun p => !(ownMetadata.contains p)).map (fun p => ⟨.delete, p, .nothing⟩) := by
     unfold plan planDeletions scanFilter scanFilterGo
     simp only [hd, ↓reduceIte, List.map_nil, List.nil_append, List.any_nil, Bool.not_false, Bool.true_and]
-    congr 1
-    apply List.filter_eq_self.mpr
-    intro p hp; have := hown p hp; simp at this; simpa using this
-  rw [hplan]
-  have hlen : ((dst.keys.map (fun p => (⟨.delete, p, .nothing⟩ : Task))).filter (·.act == .delete)).length = dst.length := by
-    rw [List.filter_eq_self.mpr]
-    · simp [Map.keys]
-    · intro t ht; simp at ht; obtain ⟨_, _, rfl⟩ := ht; rfl
-  rw [hlen]
-  have : cfg.threshold * dst.length < 100 * dst.length := Nat.mul_lt_mul_of_pos_right hthr hne
+  rw [hplan, List.filter_eq_self.mpr]
+  · simp [destCount]
+  · intro t ht; simp at ht; obtain ⟨_, _, rfl⟩ := ht; rfl
+
+/-- An empty (unmounted, mistaken) source cannot wipe a destination: every destination entry
+    would be deleted, which exceeds any threshold below 100 % — whatever metadata files of sy's own
+    earlier runs left in the destination (they are not counted, so they cannot dilute the share). -/
+theorem empty_source_cannot_wipe (cfg : Cfg) (flt : Faults) (dst : Map DNode) (n : Nat)
+    (hd : cfg.delete = true) (hf : cfg.force = false) (hthr : cfg.threshold < 100)
+    (hne : 0 < destCount dst) :
+    (runF cfg flt [] dst n).refused = true ∧ (runF cfg flt [] dst n).dst = dst := by
+  apply exceeding_share_refused cfg flt [] dst n hd hf hne
+  rw [empty_source_deletes_all cfg dst hd]
+  have : cfg.threshold * destCount dst < 100 * destCount dst := Nat.mul_lt_mul_of_pos_right hthr hne
   omega
 
 /-! ### non-vacuity -/
@@ -89,9 +92,19 @@ def exCfg : Cfg where
   maxErrors := 100
   tie := false
 
+/-- The count the guard would use if sy's own files were counted as entries (the code as it was
+    before the `fix:` commit): one user file next to a checksum database left by an earlier run is
+    wiped by an empty source under the default threshold — 1 of 2 "entries" is not more than 50 %. -/
+theorem counting_own_metadata_counterexample :
+    guardRefuses exCfg 1 ([(["only.txt"], DNode.dir), ([".sy-checksums.db"], DNode.dir)] : Map DNode).length = false ∧
+    guardRefuses exCfg 1 (destCount [(["only.txt"], DNode.dir), ([".sy-checksums.db"], DNode.dir)]) = true := by
+  decide
+
 example : guardRefuses exCfg 3 5 = true := guard_refuses exCfg 3 5 rfl rfl (by decide) (by decide)
 example : guardRefuses exCfg 2 5 = false := by decide
 example : (run exCfg [] [(["a"], .dir), (["b"], .dir)] 10).refused = true :=
-  (empty_source_cannot_wipe exCfg noFaults _ 10 rfl rfl (by decide) (by decide) (by decide)).1
+  (empty_source_cannot_wipe exCfg noFaults _ 10 rfl rfl (by decide) (by decide)).1
+example : (run exCfg [] [(["only.txt"], .dir), ([".sy-checksums.db"], .dir)] 10).refused = true :=
+  (empty_source_cannot_wipe exCfg noFaults _ 10 rfl rfl (by decide) (by decide)).1
 
 end SyModel.Props.C07
